@@ -20,6 +20,8 @@ ASSUMPTIONS = [
     "waitUntil / sleep / uiSleep (blocking by contract; covered by C11/C12), copyToClipboard/copyFromClipboard",
     "file operators run against a scratch directory mapped into the virtual file system",
     "ANY x ANY binary signatures (almost all are inert dummies) use the diagonal of the ANY pool plus boundary pairs instead of the full square",
+    "large values: BIG = 20000-element array, STR64 = 4 KiB string, DEEP = 60 levels of nesting; their product (80 MB) stays below the allocation limit, "
+    "so an operator whose result is legitimately count x length large is not reported",
     "allocation limit: 512 MiB per allocation / 3 GiB RSS under ASan; instruction budget 2*10^5 via the virtual clock; watchdog 20 s per batch",
 ]
 DEADLINE_S = {"quick": 540, "thorough": 1700}
@@ -34,8 +36,17 @@ OBJ = "Land_Test" createVehicle [1,2,3]; OBJ2 = "Land_Test" createVehicle [4,5,6
 UNIT = GRP createUnit ["Land_Test", [0,0,0], [], 0, "NONE"];
 HM = createHashMapFromArray [["a",1],[2,[3]]]; SCR = [] spawn {}; MK = createMarker ["m1", [0,0,0]];
 CFG = configFile >> "CfgTest"; CFGV = configFile >> "CfgTest" >> "num"; CFGE = configFile >> "CfgEmpty";
-BIG = []; BIG resize 100000; DEEP = []; for "_i" from 1 to 60 do { DEEP = [DEEP] }; STR64 = "x"; for "_i" from 1 to 16 do { STR64 = STR64 + STR64 };
+BIG = []; BIG resize 20000; DEEP = []; for "_i" from 1 to 60 do { DEEP = [DEEP] }; STR64 = "x"; for "_i" from 1 to 12 do { STR64 = STR64 + STR64 };
+diag_log str ["PRELUDE", ["OBJ","OBJ2","GRP","UNIT","HM","SCR","MK","CFG","CFGV","CFGE","BIG","DEEP","STR64"] select {isNil _x}, isNull OBJ, isNull UNIT, isNull GRP, isNull CFG, count BIG];
 """
+PRELUDE_OK = '["PRELUDE",[],false,false,false,false,20000]'
+# calls of one batch share a VM: what an earlier call destroyed (deleteVehicle OBJ, BIG resize 0, deleteGroup GRP ...) is
+# restored before the next call, so that every call sees the arguments its case names
+REFRESH = ('if (isNull OBJ) then {OBJ = "Land_Test" createVehicle [1,2,3]}; if (isNull OBJ2) then {OBJ2 = "Land_Test" createVehicle [4,5,6]}; '
+           'if (isNull GRP) then {GRP = createGroup west}; if (isNull UNIT) then {UNIT = GRP createUnit ["Land_Test", [0,0,0], [], 0, "NONE"]}; '
+           'if (count BIG != 20000) then {BIG = []; BIG resize 20000}; if (count HM != 2) then {HM = createHashMapFromArray [["a",1],[2,[3]]]}; '
+           'if !("m1" in allMapMarkers) then {MK = createMarker ["m1", [0,0,0]]}; if (count DEEP != 1) then {DEEP = []; for "_i" from 1 to 60 do { DEEP = [DEEP] }};\n')
+
 CONFIG = 'class CfgTest { num = 1; txt = "t"; arr[] = {1,{2,3},"x"}; class Sub { a = 1; }; class Child : Sub { b = 2; }; }; class CfgEmpty {}; class CfgVehicles { class Land_Test { scope = 2; }; };'
 
 SCALAR = ["0", "-0", "1", "-1", "0.5", "2", "3", "1e10", "-1e10", "2147483648", "-2147483649", "3.4e38", "(1e38*10)", "(-1e38*10)", "(sqrt -1)", "1e-30"]
@@ -190,10 +201,10 @@ def kind_class(kind):
     return kind
 
 
-def run_batch(ws, cases, symbolize=False):
+def run_batch(ws, cases, symbolize=False, patience=1):
     setup_scratch()
-    texts = [PRELUDE] + [text_of(c) for c in cases]
-    req = {"mode": "eval", "fork": True, "timeout_ms": 20000 + 500 * len(cases), "texts": texts,
+    texts = [PRELUDE] + [REFRESH + text_of(c) for c in cases]
+    req = {"mode": "eval", "fork": True, "timeout_ms": patience * (20000 + 500 * len(cases)), "texts": texts,
            "conf": {"max_runtime_ms": 200, "ops": "full"}, "tick_us": 1, "config": CONFIG, "maps": [[SCRATCH, "/"]]}
     if symbolize:
         return ws.call(req, variant="asan", max_alloc_mb=512, rss_mb=3072)
@@ -223,6 +234,9 @@ def check(ws, cases):
     r = run_batch(ws, cases)
     if r["outcome"] == "ok":
         viols = []
+        pre = r["result"]["items"][0]["log"]
+        if not any(PRELUDE_OK in m["msg"] for m in pre) or any(m["lvl"] <= 1 for m in pre):
+            raise RuntimeError("C09 prelude did not set up the argument pools: %r" % [m["msg"][:150] for m in pre if m["lvl"] <= 1 or "PRELUDE" in m["msg"]][:3])
         for c, it in zip(cases, r["result"]["items"][1:]):
             if it.get("parse_failed"):
                 continue    # naming/parse problems are C01's business (eg. the `.` operator)
@@ -244,6 +258,13 @@ def check(ws, cases):
     v2, _ = check(ws, cases[mid:])
     if not v1 and not v2:
         kind = r.get("kind", r["outcome"])
+        if r["outcome"] == "timeout" or kind == "timeout":
+            # slow but finite calls (20000 diagnostics each) can add up to the batch watchdog: replay the batch with ten times
+            # the patience before calling it a hang
+            r3 = run_batch(ws, cases, patience=10)
+            if r3["outcome"] == "ok":
+                return [], info
+            kind = r3.get("kind", r3["outcome"])
         return [("C09|batch-only|%s" % kind_class(kind), "batch fails (%s) but no single call of it does: %r" % (kind, [text_of(c) for c in cases][:6]), None, cases)], info
     return v1 + v2, info
 
